@@ -139,11 +139,15 @@ def run(case, j):
         j.note("configured_not_by_constructor")
     if case.get("xform", "C") != "C":
         j.note("non_default_containers")
+    wfit = None if wl is None else wl.copy()
     if via == "fit_transform":
-        Tft = np.asarray(j.lib("fit_transform", est.fit_transform, Xin, sample_weight=None if wl is None else wl.copy()))
+        Tft = np.asarray(j.lib("fit_transform", est.fit_transform, Xin, sample_weight=wfit))
         j.note("fits_through_fit_transform")
     else:
-        j.lib("fit", est.fit, Xin, sample_weight=None if wl is None else wl.copy())
+        j.lib("fit", est.fit, Xin, sample_weight=wfit)
+    if wfit is not None and case["pseed"] % 2 == 0:
+        wfit[...] = np.random.default_rng(case["pseed"]).uniform(0.05, 20.0, size=wfit.shape) * float(case.get("wunit", 1.0))  # the caller re-uses its weight array
+        j.note("caller_weights_overwritten_after_fit")
     j.note("fits_judged")
     est = forms.carry(est, case.get("carry", "same"), j)  # what transforms afterwards may be a copy of what was fitted
     if case.get("reject"):
